@@ -158,31 +158,59 @@ def run(ctx) -> Result:
     for prof in profiles:
         _check_ordering(res, proj, comp, prof)
 
-    # ------------------------------------------------------------------ O4
-    ds, sch = comp.param_names[1], comp.param_names[2]
-    calls = [n_ for n_ in ast.walk(comp.node) if isinstance(n_, ast.Call)]
-    pcm = [c for c in calls if isinstance(c.func, ast.Attribute) and c.func.attr == "pairwise_cost_matrix"]
-    good = len(pcm) == 1 and len(pcm[0].args) >= 2 and src(pcm[0].args[0]) in (f"{ds}.get_positions()", f"{ds}.get_bucket_ids()") \
-        and src(pcm[0].args[1]) == sch and len(pcm[0].args) == 2 and not pcm[0].keywords
-    res.check(good, "O4", "compute_consensus_rankings:cost-matrix-args", comp.loc(pcm[0]) if pcm else comp.loc(),
-              ok_detail="pairwise_cost_matrix(dataset positions, scoring_scheme), unit weights",
-              bad_detail=f"cost matrix built from {[src(a) for a in pcm[0].args] if pcm else 'nothing'}")
-    fill = [c for c in calls if isinstance(c.func, ast.Attribute) and c.func.attr == "_fill_dicts_copeland"]
-    good = len(fill) == 1 and len(fill[0].args) == 1
-    if good:
-        a = fill[0].args[0]
-        # the argument is the variable assigned from the pairwise_cost_matrix call
-        good = isinstance(a, ast.Name) and any(
-            isinstance(s, (ast.Assign, ast.AnnAssign)) and getattr(s, "value", None) is pcm[0]
-            and src(getattr(s, "target", None) or s.targets[0]) == a.id for s in ast.walk(comp.node)) if pcm else False
-    res.check(good, "O4", "compute_consensus_rankings:counter-input", comp.loc(),
-              ok_detail="the pair counter receives the cost matrix just built",
-              bad_detail="the pair counter does not receive the cost matrix built from the caller's dataset")
+    # ------------------------------------------------------------------ O4 (evaluation on real instances)
+    _check_o4(res, proj, cls, comp, f)
     res.not_decided.append("nothing numeric: the counting rule compares float costs exactly as the property states")
     if not res.violations:      # the end-to-end pass adds nothing to an established violation (and may not terminate on it)
         from . import e2e
         e2e.check(res, ctx.proj, "C13", ctx.thorough)
     return res
+
+
+def _check_o4(res: Result, proj, cls, comp, fill):
+    """The real entry point on a real dataset / scheme with the cost-matrix builder and the pair counter intercepted:
+    the matrix is built from the caller's positions (or bucket ids) and scheme with unit weights, the counter receives
+    that very matrix, the Consensus carries the caller's dataset and scheme."""
+    from .datamodel import World
+    from ..engines.abseval import Mat, Vec
+    from ..engines.npmodel import Cube
+    w = World(proj)
+    ds = w.dataset([[{"a"}, {"b", "c"}], [{"c"}, {"a"}], [{"b"}, {"a"}]])
+    SS = proj.cls("corankco.scoringscheme", "ScoringScheme")
+    sch = w.rt.new(SS, [[[0., 1., 1., 0., 1., 1.], [1., 1., 0., 1., 1., 0.]]], {})
+    alg = w.rt.new(cls, [], {})
+    pba = proj.cls("corankco.algorithms.pairwisebasedalgorithm", "PairwiseBasedAlgorithm")
+    seen = {"pcm": [], "fill": []}
+    marker = Cube([[[0.0, 0.0, 0.0] for _ in range(3)] for _ in range(3)])
+    marker.as_matrix = True
+
+    def pcm(args, kw):
+        seen["pcm"].append((list(args), dict(kw)))
+        return marker
+
+    def fill_(args, kw):
+        seen["fill"].append(list(args))
+        return (Vec([2.0, 1.0, 0.0]), Mat([[2, 0, 0], [1, 0, 1], [0, 0, 2]]))
+    w.rt.overrides[proj.method(pba, "pairwise_cost_matrix").qualname] = pcm
+    w.rt.overrides[fill.qualname] = fill_
+    st, c = w.safe("compute_consensus_rankings", w.rt.call_method, alg, "compute_consensus_rankings", ds, sch, True)
+    w.rt.overrides.clear()
+    good = st == "ok" and len(seen["pcm"]) == 1
+    detail = f"outcome {st}; {len(seen['pcm'])} cost-matrix call(s)"
+    if good:
+        args, kw = seen["pcm"][0]
+        pos = w.call(ds, "get_positions")
+        bid = w.call(ds, "get_bucket_ids")
+        wts = kw.get("weights", args[2] if len(args) > 2 else None)
+        unit = wts is None or (isinstance(wts, Vec) and all(x == 1 for x in wts.vals))
+        good = len(args) >= 2 and (args[0] == pos or args[0] == bid) and args[1] is sch and unit
+        detail = f"cost matrix built from {args[:1]!r} / scheme is the caller's: {len(args) > 1 and args[1] is sch} / weights {wts!r}"
+    res.check(good, "O4", "compute_consensus_rankings:cost-matrix-args", comp.loc(),
+              ok_detail="pairwise_cost_matrix(dataset positions, scoring_scheme), unit weights", bad_detail=detail)
+    good = st == "ok" and len(seen["fill"]) == 1 and len(seen["fill"][0]) >= 1 and seen["fill"][0][-1] is marker
+    res.check(good, "O4", "compute_consensus_rankings:counter-input", comp.loc(),
+              ok_detail="the pair counter receives the cost matrix just built",
+              bad_detail="the pair counter does not receive the cost matrix built from the caller's dataset")
 
 
 def _check_ordering(res: Result, proj, comp, prof: List[float]):
